@@ -1208,16 +1208,22 @@ def par_14(ctx, rep):
         if f.mod.rel != PY:
             continue
         ups = downs = 0
+        from ..model import reaching_values
         for n in walk_own(f.node):
             if isinstance(n, ast.AugAssign) and isinstance(n.target, ast.Attribute) and norm(n.target.value) == 'self' \
                     and isinstance(n.value, ast.Constant) and n.value.value == 1:
                 ups += isinstance(n.op, ast.Add)
                 downs += isinstance(n.op, ast.Sub)
             if isinstance(n, ast.Assign) and len(n.targets) == 1 and isinstance(n.targets[0], ast.Attribute) \
-                    and norm(n.targets[0].value) == 'self' and isinstance(n.value, ast.BinOp) \
-                    and norm(n.value.left) == norm(n.targets[0]) and norm(n.value.right) == '1':
-                ups += isinstance(n.value.op, ast.Add)
-                downs += isinstance(n.value.op, ast.Sub)
+                    and norm(n.targets[0].value) == 'self' and isinstance(n.value, ast.BinOp) and norm(n.value.right) == '1':
+                left = n.value.left
+                same = norm(left) == norm(n.targets[0])
+                if not same and isinstance(left, ast.Name):       # through a local copy of the attribute
+                    vals = reaching_values(f.node, left)
+                    same = bool(vals) and all(norm(v) == norm(n.targets[0]) for v in vals)
+                if same:
+                    ups += isinstance(n.value.op, ast.Add)
+                    downs += isinstance(n.value.op, ast.Sub)
         mentions = {norm(x) for x in walk_own(f.node) if isinstance(x, (ast.Name, ast.Attribute))}
         if ups and downs and any(m.split('.')[-1] in ('INDENT', 'DEDENT') for m in mentions):
             counters.append(f)
